@@ -269,11 +269,8 @@ func checkConfig(c Config) (summary string, err error) {
 		}
 	}
 	sort.Strings(created)
-	announced := strings.Contains(out, "Successful")
+	announced := strings.Contains(strings.ToLower(out), "success")
 	summary = fmt.Sprintf("exit=%d created=%d", code, len(created))
-	if code != 0 && code != 1 {
-		return summary, fmt.Errorf("exit status %d\n%s", code, where)
-	}
 	if strings.Contains(out, "panic:") || strings.Contains(out, "goroutine ") {
 		return summary, fmt.Errorf("stack trace\n%s", where)
 	}
